@@ -115,3 +115,200 @@ class Include:
 
 
 LEMMAS = [Include()]
+
+
+# =============================================================================================== unbounded contracts
+
+import z3
+from pyvc.contracts import Verifier, LoopSpec, CallSpec
+from pyvc.lists import AbsList, SeqList, IntSeq
+from pyvc.objs import Obj
+from pyvc.sym import SymInt, mk, mks, cur, branch, And, Or, Not, Implies, Ite
+from pyvc import sym
+
+PKEY = "cocoasm/program.py::Program."
+
+
+class IncludeContracts:
+    """
+    C19 at the level of the two functions that implement inclusion, for statement / line lists of ANY length (Seq theory,
+    abstract lines and statements: Statement(line) is an uninterpreted function of the line, as justified by C17):
+
+      Program.parse(lines)              == the left fold   P(i+1) = P(i) ++ [stmt(line_i)]  if the statement is kept (not empty,
+                                           not a comment), P(i) otherwise: order preserved, nothing dropped or duplicated,
+                                           the input list is not modified
+      Program.process_mnemonics(stmts)  == the left fold   G(i+1) = G(i) ++ flat(parse(file(s_i)))  if s_i is an INCLUDE,
+                                           G(i) ++ [s_i] otherwise: the expansion stands exactly where the INCLUDE stood
+                                           (recursion through the function's own contract)
+    """
+    name = "include_contracts"
+    props = ("C19",)
+
+    def cells(self, tier):
+        return [{"id": "fn/Program.parse", "fn": "parse"}, {"id": "fn/Program.process_mnemonics", "fn": "pm"}]
+
+    def probes(self, cell):
+        yield {"probe": 1}
+
+    def run(self, env, cell):
+        if env.mode == "native":
+            # native witness search: the bounded include cells of this module (same-file-twice, nested, middle, split)
+            inc = Include()
+            for c in inc.cells("quick"):
+                if c["k"] in ("twice", "nested", "middle"):
+                    inc.run(env, c)
+            return
+        getattr(self, "s_" + cell["fn"])(env, cell)
+
+    def s_parse(self, env, cell):
+        it = env.interp
+        p = cur()
+        n = env.hole_int("n", 0, 100000)
+        Program = it.get("cocoasm.program", "Program")
+        Statement = it.get("cocoasm.statement", "Statement")
+        S = z3.Function("stmt_of", z3.IntSort(), z3.IntSort())
+        E = z3.Function("is_empty", z3.IntSort(), z3.BoolSort())
+        Cm = z3.Function("is_comment", z3.IntSort(), z3.BoolSort())
+        FP = z3.Function("parse_prefix", z3.IntSort(), IntSeq)
+        lines = AbsList(n, lambda k: k if isinstance(k, SymInt) else SymInt(z3.IntVal(k)) if not isinstance(k, int) else k)
+        v = Verifier(env, it)
+
+        def apply_init(v_, interp, func, args):
+            st, line = args["self"], args["line"]
+            st.fields["is_empty"] = mk(E(sym._z(line)))
+            st.fields["is_comment_only"] = mk(Cm(sym._z(line)))
+            st.fields["_id"] = SymInt(S(sym._z(line)))
+            return None
+        v.contract("cocoasm/statement.py::Statement.__init__", CallSpec(apply_init))
+        key = PKEY + "parse"
+
+        def kept(k):
+            return z3.And(z3.Not(E(k)), z3.Not(Cm(k)))
+
+        def init(ctx):
+            p.assume(FP(0) == z3.Empty(IntSeq))
+            return {}
+
+        def havoc(ctx):
+            p.fresh += 1
+            ctx.locals["statements"] = SeqList(z3.Const("stmts!%d" % p.fresh, IntSeq))
+            return {}
+
+        def inv(ctx, i, g):
+            s = ctx.locals["statements"]
+            seq = s.seq if isinstance(s, SeqList) else SeqList.of([sym._z(x.fields["_id"]) for x in s]).seq
+            return [("fold", mk(seq == FP(sym._z(i))))]
+
+        def step(ctx, i, g):
+            return {}
+
+        def assume(ctx, i):
+            k = sym._z(i)
+            return [mk(FP(k + 1) == z3.If(kept(k), z3.Concat(FP(k), z3.Unit(S(k))), FP(k)))]
+        v.loop(key, 0, LoopSpec(("C19",), init, havoc, inv, step, assume=assume))
+        with v.installed():
+            res = it.call(it.getattr_(Program, "parse"), [lines], {})
+        if isinstance(res, SeqList):
+            env.ensure(key + "::post:left-fold-of-kept-statements", mk(res.seq == FP(sym._z(n))), ("C19",), internal="contract over abstract lines")
+        else:
+            env.ensure(key + "::post:left-fold-of-kept-statements", And(n == 0, len(res) == 0), ("C19",), internal="contract over abstract lines")
+
+    def s_pm(self, env, cell):
+        it = env.interp
+        p = cur()
+        n = env.hole_int("n", 0, 100000)
+        Program = it.get("cocoasm.program", "Program")
+        Statement = it.get("cocoasm.statement", "Statement")
+        INC = z3.Function("is_include", z3.IntSort(), z3.BoolSort())
+        FILE = z3.Function("include_file", z3.IntSort(), z3.IntSort())
+        PARSED = z3.Function("parsed_file", z3.IntSort(), IntSeq)
+        FLAT = z3.Function("flat", IntSeq, IntSeq)
+        G = z3.Function("flat_prefix", z3.IntSort(), IntSeq)
+        SID = z3.Function("stmt_at", z3.IntSort(), z3.IntSort())
+
+        def elem(k):
+            o = Obj(Statement, {"_id": SymInt(SID(sym._z(k))), "_pos": k})
+            return o
+        stmts = AbsList(n, elem)
+        v = Verifier(env, it)
+        key = PKEY + "process_mnemonics"
+        SourceFile = it.get("cocoasm.virtualfiles.source_file", "SourceFile")
+
+        def apply_incname(v_, interp, func, args):
+            st = args["self"]
+            sid = sym._z(st.fields["_id"])
+            if branch(mk(INC(sid))):
+                return _FileName(SymInt(FILE(sid)))
+            return None
+        v.contract("cocoasm/statement.py::Statement.get_include_filename", CallSpec(apply_incname))
+
+        def apply_sf_init(v_, interp, func, args):
+            args["self"].fields["file_name"] = args["file_name"]
+            args["self"].fields["buffer"] = []
+            return None
+        v.contract("cocoasm/virtualfiles/source_file.py::SourceFile.__init__", CallSpec(apply_sf_init))
+
+        def apply_read(v_, interp, func, args):
+            fn = args["self"].fields["file_name"]
+            args["self"].fields["buffer"] = _FileLines(fn.fid)
+            return None
+        v.contract("cocoasm/virtualfiles/source_file.py::SourceFile.read_file", CallSpec(apply_read))
+
+        def apply_parse(v_, interp, func, args):
+            c = args["contents"]
+            if not isinstance(c, _FileLines):
+                raise sym.EngineError("parse called on something that is not the included file's buffer")
+            return SeqList(PARSED(sym._z(c.fid)))
+        v.contract(PKEY + "parse", CallSpec(apply_parse))
+
+        def apply_rec(v_, interp, func, args):
+            s = args["statements"]
+            if not isinstance(s, SeqList):
+                raise sym.EngineError("nested process_mnemonics on a non-abstract list")
+            return SeqList(FLAT(s.seq))
+        v.contract(key, CallSpec(apply_rec, nested_only=True))
+
+        def init(ctx):
+            p.assume(G(0) == z3.Empty(IntSeq))
+            return {}
+
+        def havoc(ctx):
+            p.fresh += 1
+            ctx.locals["processed_statements"] = SeqList(z3.Const("proc!%d" % p.fresh, IntSeq))
+            return {}
+
+        def inv(ctx, i, g):
+            s = ctx.locals["processed_statements"]
+            seq = s.seq if isinstance(s, SeqList) else z3.Empty(IntSeq)
+            return [("fold", mk(seq == G(sym._z(i))))]
+
+        def step(ctx, i, g):
+            return {}
+
+        def assume(ctx, i):
+            k = sym._z(i)
+            sid = SID(k)
+            return [mk(G(k + 1) == z3.If(INC(sid), z3.Concat(G(k), FLAT(PARSED(FILE(sid)))), z3.Concat(G(k), z3.Unit(sid))))]
+        v.loop(key, 0, LoopSpec(("C19",), init, havoc, inv, step, assume=assume))
+        with v.installed():
+            res = it.call(it.getattr_(Program, "process_mnemonics"), [stmts], {})
+        if isinstance(res, SeqList):
+            env.ensure(key + "::post:in-place-expansion-fold", mk(res.seq == G(sym._z(n))), ("C19",), internal="contract over abstract statements")
+        else:
+            env.ensure(key + "::post:in-place-expansion-fold", And(n == 0, len(res) == 0), ("C19",), internal="contract over abstract statements")
+
+
+class _FileName(str):
+    """abstract include file name (a non-empty string for the interpreter, carrying the symbolic file id)"""
+    def __new__(cls, fid):
+        o = str.__new__(cls, "<included file>")
+        o.fid = fid
+        return o
+
+
+class _FileLines:
+    def __init__(self, fid):
+        self.fid = fid
+
+
+LEMMAS.append(IncludeContracts())
